@@ -430,15 +430,33 @@ let gen_aux (nz : noise) (size : int) : string =
 
 let body_pool : string list ref = ref []
 
+let bytes_of_string (s : string) : n list = List.init (String.length s) (fun i -> n_of_int (Char.code s.[i]))
+(* the witnesses already inside a witness-set encoding, as add operations (adding one of them again must not
+   change the set, but still makes the library drop the field's original bytes) *)
+let existing_ops (wits : string) : string list =
+  match decode_wits (bytes_of_string wits) with
+  | Ok (w, _) ->
+    List.concat (List.map (fun (_, f) ->
+        match f.f_parsed with
+        | PVk (_, ws) -> List.map (fun (vk, sg) -> Printf.sprintf "av:%s:%s" (hex_of_bytes vk) (hex_of_bytes sg)) ws
+        | PBw (_, ws) -> List.map (fun (((vk, sg), cc), at) ->
+            Printf.sprintf "ab:%s:%s:%s:%s" (hex_of_bytes vk) (hex_of_bytes sg) (hex_of_bytes cc) (hex_of_bytes at)) ws
+        | PGen (_, _) -> []) w.w_fields)
+  | _ -> []
+
 (* operations; [cur] = the bytes the hash is taken over at this point *)
-let gen_ops (body : string) (sign_ok : bool) : string list =
+let gen_ops ?(wits : string = "") (body : string) (sign_ok : bool) : string list =
+  let existing = if wits = "" then [] else existing_ops wits in
   let cur = ref body in
   let k = (match below 10 with 0 | 1 -> 0 | 2 | 3 | 4 -> 1 | 5 | 6 -> 2 | 7 -> 3 | 8 -> 4 | _ -> 6) in
   let last_av = ref None in
   List.concat (List.init k (fun _ ->
       match below (if sign_ok then 20 else 7) with
       | 0 | 1 -> let o = Printf.sprintf "av:%s:%s" (rand_hex 32) (rand_hex 64) in last_av := Some o; [o]
-      | 2 -> (match !last_av with Some o -> [o] | None -> [Printf.sprintf "av:%s:%s" (rand_hex 32) (rand_hex 64)])   (* the same witness again *)
+      | 2 -> (match !last_av, existing with                                                    (* a witness that is already there *)
+          | _, (_ :: _) when chance 60 -> [List.nth existing (below (List.length existing))]
+          | Some o, _ -> [o]
+          | None, _ -> [Printf.sprintf "av:%s:%s" (rand_hex 32) (rand_hex 64)])
       | 3 | 4 -> [Printf.sprintf "ab:%s:%s:%s:%s" (rand_hex 32) (rand_hex 64) (rand_hex (if chance 80 then 32 else below 40))
                    (if chance 50 then "a0" else rand_hex (below 30))]
       | 5 -> [Printf.sprintf "vl:%d" (below 2)]
@@ -574,9 +592,9 @@ let gen_mode seed tier out =
   (* stream 1: valid transactions re-encoded with noise, with operation sequences *)
   for _ = 1 to 420 * scale do
     let parts = gen_tx_parts () in
-    let (body, _, _, _, _) = parts in
+    let (body, wits, _, _, _) = parts in
     let s = assemble parts in
-    Printf.fprintf oc "tx %s %s\n" (hex_of_string s) (String.concat " " (gen_ops body true))
+    Printf.fprintf oc "tx %s %s\n" (hex_of_string s) (String.concat " " (gen_ops ~wits body true))
   done;
   (* stream 2: the same, then damaged *)
   for _ = 1 to 160 * scale do
@@ -592,7 +610,7 @@ let gen_mode seed tier out =
     (match below 3 with
      | 0 -> Printf.fprintf oc "txb %s %s\n" (hex_of_string (body ^ junk)) (String.concat " " (gen_ops (body ^ junk) true))
      | 1 -> Printf.fprintf oc "txn %s %s %d %s %s\n" (hex_of_string (body ^ junk)) (hex_of_string wits) (if valid = "\xf5" then 1 else 0)
-              (match aux with Some a -> hex_of_string a | None -> "~") (String.concat " " (gen_ops (body ^ junk) true))
+              (match aux with Some a -> hex_of_string a | None -> "~") (String.concat " " (gen_ops ~wits (body ^ junk) true))
      | _ -> Printf.fprintf oc "fb %s\n" (hex_of_string (if chance 20 then mutate body else body ^ junk)))
   done;
   (* stream 4: datums *)
